@@ -11,6 +11,7 @@ import MdModel.SymParse
 import MdProofs.Lemmas.SymStream
 import MdProofs.Lemmas.SymChunk
 import MdProofs.Lemmas.SymParseLocal
+import MdProofs.Lemmas.SymDrop
 namespace MdModel.Sym
 open MdModel MdModel.Stream MdModel.Gen.SymConsts
 
@@ -153,6 +154,19 @@ theorem chunk_independent_result (input : Bytes) (sched : List Nat)
   unfold parseResult
   rw [h, h']
   cases out <;> rfl
+
+/-- chunk independence extends to files that also contain over-long lines (> 160 KiB, dropped by
+    every chunking alike): only lines between 80 KiB and 160 KiB are chunk dependent in the code. -/
+theorem chunk_independent_mixed (input : Bytes) (sched : List Nat)
+    (hmix : Mixed (MAX_BUFFER_CAPACITY / 2) MAX_BUFFER_CAPACITY input) :
+    ∃ out sf sf', parseStream input sched = some (out, sf) ∧ parseStream input [] = some (out, sf') := by
+  have hc : (∃ k, INITIAL_BUFFER_CAPACITY * 2 ^ k = MAX_BUFFER_CAPACITY) ∧
+      2 * MAX_BUFFER_CAPACITY ≤ U64MAX ∧ 0 < INITIAL_BUFFER_CAPACITY := ⟨⟨4, by decide⟩, by decide, by decide⟩
+  obtain ⟨sf, h⟩ := machine_eq_specM MAX_BUFFER_CAPACITY INITIAL_BUFFER_CAPACITY input symOps Lsym {} sched
+    parseMore_eq hc.2.1 hc.2.2 hc.1 hmix
+  obtain ⟨sf', h'⟩ := machine_eq_specM MAX_BUFFER_CAPACITY INITIAL_BUFFER_CAPACITY input symOps Lsym {} []
+    parseMore_eq hc.2.1 hc.2.2 hc.1 hmix
+  exact ⟨_, sf, sf', h, h'⟩
 
 /-- a sufficient, easily checked condition: an input shorter than 80 KiB has short lines -/
 theorem shortLines_of_length (half : Nat) (input : Bytes) (h : input.length < half) :
